@@ -905,6 +905,34 @@ func (h *harness) setupSECS1() {
 			})
 		}
 
+		if w.T.Choose("peer", 3) == 0 {
+			// a damaged block (the library drains the line until it has been silent for T1 before it
+			// answers NAK) and, inside or just after that drain, the end of the connection
+			w.After(time.Duration(5+w.T.Choose("peer", 200))*time.Millisecond, "peer-bad-block", func() {
+				if p.Dead || p.L == nil {
+					return
+				}
+				sys++
+				bh := refe4.Header{Device: device, R: !sc.Equip, Stream: 6, Func: 11, Num: 1, E: true, Sys: sys}
+				raw := refe4.Wire(bh, []byte{0x41, 0x03, 'b', 'a', 'd'})
+				raw[len(raw)-1] ^= 0x5A
+				w.Fault("bad-checksum-block")
+				p.SendBlock(raw, nil, nil, nil)
+				if how := w.T.Choose("peer", 3); how != 0 {
+					l := p.L
+					w.After(time.Duration(3+w.T.Choose("peer", 45))*time.Millisecond, "peer-ends-in-the-drain", func() {
+						if how == 1 {
+							w.Fault("fin")
+							l.FIN()
+						} else {
+							w.Fault("rst")
+							l.RST()
+						}
+					})
+				}
+			})
+		}
+
 		return p
 	}
 	h.N.OnConnect = func(l *simnet.Link) simnet.RawEnd {
